@@ -64,8 +64,8 @@ pub enum Op {
     DropReceipt(u8),
     /// application closes the sink
     Close(u8),
-    /// a send that must fail locally: create + poll once.  how: 0 over-long topic / filter,
-    /// 1 over-long user property (v5), 2 larger than the peer's Maximum Packet Size (v5, when configured)
+    /// a send that must fail locally: create + poll once.  how (bits 0-1): 0 over-long topic / filter,
+    /// 1 over-long user property (v5), 2 larger than the peer's Maximum Packet Size (v5, when configured); bits 2-3: caller-chosen packet id (0 = automatic)
     SendBad { kind: SendKind, how: u8 },
     /// start a streamed publish (QoS 0 / 1) with `declared` payload bytes.
     /// bad: 0 no, 1 over-long topic, 2 packet id of an outstanding request (QoS 1), 3 no failure but the future is not polled yet (QoS 1)
@@ -477,6 +477,14 @@ impl World {
         }
     }
 
+    /// the same with a caller-chosen packet id
+    pub fn force_send_own(&mut self, kind: SendKind, own_id: u8) {
+        self.step += 1;
+        if let Some(i) = self.create(kind, false, own_id) {
+            self.poll_slot(i);
+        }
+    }
+
     /// "send again immediately on completion" loops
     fn resend_loops(&mut self) {
         let mut guard = 0;
@@ -714,7 +722,10 @@ impl World {
                 if self.slots.len() < 60 && (kind != SendKind::NoBlock || self.eut.sink_ready()) {
                     let i = self.slots.len();
                     let v5 = self.eut.role().is_v5();
-                    let mut spec = SendSpec { kind, topic: tag_topic(i), payload: vec![1], pid: None, user_prop: None };
+                    // how: bits 0-1 the cause (3 counts as 0), bits 2-3 a caller-chosen packet id 1..3 (0 = automatic)
+                    let own = (how >> 2) & 3;
+                    let how = how & 3;
+                    let mut spec = SendSpec { kind, topic: tag_topic(i), payload: vec![1], pid: (own != 0).then_some(u16::from(own)), user_prop: None };
                     match (how % 3, v5, self.peer_max) {
                         (1, true, _) if kind != SendKind::Qos2 => spec.user_prop = Some(("k".into(), "v".repeat(66_000))),
                         (2, true, Some(max)) if matches!(kind, SendKind::Qos0 | SendKind::Qos1 | SendKind::Qos2) => spec.payload = vec![2; max as usize],
@@ -949,7 +960,7 @@ pub fn decode_ops(data: &[u8], max: usize) -> Vec<Op> {
             10 => Op::Settle,
             11 => Op::Release(a),
             12 => Op::DropReceipt(a),
-            13 => Op::SendBad { kind, how: a >> 3 },
+            13 => Op::SendBad { kind, how: (a >> 3) & 15 },
             14 => Op::StreamStart { qos: a & 1, declared: [0u8, 1, 3, 6, 9, 11, 200, 5][usize::from(a >> 1) % 8], bad: [0u8, 0, 0, 1, 2, 3][usize::from(a >> 4) % 6] },
             15 | 16 => Op::Chunk { stream: a & 1, len: (a >> 1) % 6 },
             17 => Op::StreamDrop(a),
